@@ -35,6 +35,9 @@ func overrideItem() *rapid.Generator[gen.Item] {
 			if text == "" {
 				text = "w"
 			}
+			if rapid.IntRange(0, 3).Draw(t, "trailing-lf") == 0 {
+				text += "\n" // still exactly one text line
+			}
 			it.M |= gen.MWidth
 			it.W = rapid.IntRange(0, 12).Draw(t, "w")
 		} else {
@@ -72,16 +75,24 @@ func caseGen() *rapid.Generator[Case] {
 		return plain.Draw(t, "plain")
 	})
 	sg := gen.ScriptGen(gen.ScriptOpts{
-		Item:     item,
-		MinOps:   1,
-		MaxOps:   max,
-		MaxCells: 5,
-		Creators: []string{"core", "core", "texttable"},
+		AllowMutate: true,
+		Item:        item,
+		MinOps:      1,
+		MaxOps:      max,
+		MaxCells:    5,
+		Creators:    []string{"core", "core", "texttable"},
 	})
 	dg := gen.DecoGen()
 	return rapid.Custom(func(t *rapid.T) Case {
 		c := Case{Script: sg.Draw(t, "script"), Deco: dg.Draw(t, "deco")}
 		c.Align = rapid.SliceOfN(rapid.IntRange(0, 3), 0, 7).Draw(t, "align")
+		if rapid.IntRange(0, 3).Draw(t, "also?") == 0 {
+			c.Also = rapid.SliceOfN(rapid.SampledFrom([]string{"markdown", "markdown!", "csv!", "json", "html!", "texttable", "texttable!", "none!"}), 1, 3).Draw(t, "also")
+		}
+		c.Renders = rapid.IntRange(1, 3).Draw(t, "renders")
+		if rapid.IntRange(0, 3).Draw(t, "pre?") == 0 {
+			c.Pre = 1 + rapid.IntRange(0, len(c.Script.Ops)).Draw(t, "pre")
+		}
 		return c
 	})
 }
